@@ -202,17 +202,17 @@ def decodeSteps (P : Prims) (b : Block) : List Step :=
 
 /-- `verifyHeader`, non-VBFT branch (`header.Height == 0 → return nil` is unreachable behind the next-height guard) -/
 def verifyHeaderSteps (P : Prims) (h : Hdr) : List Step :=
-  [ .guard "prevHeader == nil" (fun l => if (lookupHeader l h.u.prev).isNone then some .prevUnknown else none),
-    .guard "prevHeader.Height+1 != header.Height"
+  [ .guard "GetHeaderByHash#0==nil" (fun l => if (lookupHeader l h.u.prev).isNone then some .prevUnknown else none),
+    .guard "GetHeaderByHash#0.Height+1!=header.Height"
       (fun l => match lookupHeader l h.u.prev with
         | some ph => if (ph.u.height + 1) % u32 ≠ h.u.height then some .prevHeight else none
         | none => none),
-    .guard "prevHeader.Timestamp >= header.Timestamp"
+    .guard "GetHeaderByHash#0.Timestamp>=header.Timestamp"
       (fun l => match lookupHeader l h.u.prev with
         | some ph => if ph.u.ts ≥ h.u.ts then some .timestamp else none
         | none => none),
     .guard "AddressFromBookkeepers" (fun _ => if (P.addrOf h.keys).isNone then some .bkAddr else none),
-    .guard "prevHeader.NextBookkeeper != address"
+    .guard "GetHeaderByHash#0.NextBookkeeper!=AddressFromBookkeepers#0"
       (fun l => match lookupHeader l h.u.prev, P.addrOf h.keys with
         | some ph, some a => if ph.u.nextBk ≠ a then some .bkMismatch else none
         | _, _ => none),
@@ -231,7 +231,7 @@ def submitSteps (P : Prims) (b : Block) : List Step :=
   let hash := P.hdrHash b.hdr.u
   let h := b.hdr.u.height
   let txHashes := b.txs.map P.txHash
-  [ .guard "block.Header.Height != 0 && blockRoot != block.Header.BlockRoot"
+  [ .guard "header.Height!=0&&this.GetBlockRootWithNewTxRoots(header.Height,[]common.Uint256{header.TransactionsRoot})!=header.BlockRoot"
       (fun l => if h ≠ 0 ∧ P.rootWith l.mem.blockLeaves b.hdr.u.txRoot ≠ b.hdr.u.blockRoot then some .blockRoot else none),
     .effect "this.blockStore.NewBatch" (fun l => { l with mem := { l.mem with bBlock := [] } }),
     .effect "this.stateStore.NewBatch" (fun l => { l with mem := { l.mem with bState := [] } }),
@@ -254,7 +254,7 @@ def submitSteps (P : Prims) (b : Block) : List Step :=
       (fun l => let leaves := l.mem.blockLeaves ++ [b.hdr.u.txRoot]
         putState (.blockTree leaves) { l with mem := { l.mem with blockLeaves := leaves } }),
     .effect "this.stateStore.SaveCurrentBlock" (putState (.curBlock h hash)),
-    .effect "result.WriteSet.ForEach"
+    .effect ".WriteSet.ForEach"
       (fun l => match execRes P l b with
         | some (_, st) => putState (.state st) l
         | none => l),
@@ -269,19 +269,19 @@ def delHeaderCache (hash : Hash) (l : Ledger) : Ledger :=
   { l with mem := { l.mem with hdrCache := l.mem.hdrCache.filter (fun e => e.1 ≠ hash) } }
 
 def heightGuards (b : Block) : List Step :=
-  [ .stop "blockHeight <= currBlockHeight" (fun l => decide (b.hdr.u.height ≤ l.mem.curHeight)),
-    .guard "blockHeight != nextBlockHeight" (fun l => if b.hdr.u.height ≠ (l.mem.curHeight + 1) % u32 then some .notNext else none),
-    .guard "block.Header.PrevBlockHash != this.GetCurrentBlockHash()" (fun l => if b.hdr.u.prev ≠ l.mem.curHash then some .prevTip else none) ]
+  [ .stop "header.Height<=this.GetCurrentBlockHeight()" (fun l => decide (b.hdr.u.height ≤ l.mem.curHeight)),
+    .guard "header.Height!=(this.GetCurrentBlockHeight()+1)" (fun l => if b.hdr.u.height ≠ (l.mem.curHeight + 1) % u32 then some .notNext else none),
+    .guard "header.PrevBlockHash!=this.GetCurrentBlockHash()" (fun l => if b.hdr.u.prev ≠ l.mem.curHash then some .prevTip else none) ]
 
 /-- `AddBlock(block, nil, stateMerkleRoot)`: the path of a syncing node -/
 def addBlockSteps (P : Prims) (b : Block) (sr : Hash) : List Step :=
   heightGuards b
   ++ verifyHeaderSteps P b.hdr
-  ++ [ .stop "blockHeight > 0 && blockHeight <= this.GetCurrentBlockHeight()" (fun l => decide (0 < b.hdr.u.height ∧ b.hdr.u.height ≤ l.mem.curHeight)),
+  ++ [ .stop "header.Height>0&&header.Height<=this.GetCurrentBlockHeight()" (fun l => decide (0 < b.hdr.u.height ∧ b.hdr.u.height ≤ l.mem.curHeight)),
        .guard "this.closing" (fun l => if l.mem.closing then some .closing else none),
-       .stop "blockHeight > 0 && blockHeight != (this.GetCurrentBlockHeight()+1)" (fun l => decide (0 < b.hdr.u.height ∧ b.hdr.u.height ≠ (l.mem.curHeight + 1) % u32)),
+       .stop "header.Height>0&&header.Height!=(this.GetCurrentBlockHeight()+1)" (fun l => decide (0 < b.hdr.u.height ∧ b.hdr.u.height ≠ (l.mem.curHeight + 1) % u32)),
        .guard "executeBlock" (fun l => if (execRes P l b).isNone then some .exec else none),
-       .guard "len(block.Transactions) != 0 && result.MerkleRoot != stateMerkleRoot"
+       .guard "len(block.Transactions)!=0&&executeBlock#0.MerkleRoot!=stateMerkleRoot"
          (fun l => match execRes P l b with
            | some (ws, _) => if b.txs ≠ [] ∧ P.stateRootWith l.mem.deltaLeaves ws ≠ sr then some .stateRoot else none
            | none => none) ]
@@ -312,7 +312,7 @@ def submitBlock (P : Prims) (b : Block) (l : Ledger) : Outcome × Ledger := run 
 
 /-- `AddHeader` (header sync): next header height, `verifyHeader`, then cache + index -/
 def addHeaderSteps (P : Prims) (h : Hdr) : List Step :=
-  [ .guard "header.Height != nextHeaderHeight"
+  [ .guard "header.Height!=(this.GetCurrentHeaderHeight()+1)"
       (fun l => if h.u.height ≠ ((if l.mem.hdrLast = 0 then l.mem.curHeight else l.mem.hdrLast) + 1) % u32 then some .notNext else none) ]
   ++ verifyHeaderSteps P h
   ++ [ .effect "this.addHeaderCache" (fun l => { l with mem := { l.mem with hdrCache := (P.hdrHash h.u, h) :: l.mem.hdrCache } }),
